@@ -28,8 +28,10 @@ theorem runChain_safe {chain : List Mw} (h : SafeOrder chain) (w : World) (c : N
     simp only [List.cons_append, runChain]
     exact ih (fun m hm => hpre m (List.mem_cons_of_mem _ hm))
 
-/-- a world in which context 0 has disabled everything for backend 0 -/
-def Wdis : World := disableB (World.init true) 0 0 []
+/-- a world in which context 0 has disabled `get` — and nothing else — for backend 0 -/
+def Wdis : World := disableB (World.init true) 0 0 [.get]
+
+theorem wdis_delete_enabled : isDisable Wdis 0 (Target.raw 0).ctl [Cmd.delete] = false := by decide
 
 theorem wdis_disabled : isDisable Wdis 0 (Target.raw 0).ctl [Cmd.get] = true := by decide
 
@@ -52,7 +54,7 @@ theorem safe_of_silent : ∀ (chain : List Mw),
     simp [runChain, Target.backend] at this
   | .invalidate :: rest, h => by
     have := h true []
-    simp [runChain, invalidateOf] at this
+    simp [runChain, invalidateOf, wdis_delete_enabled] at this
 
 /-! ### the stack of `Cache()` -/
 
@@ -61,7 +63,7 @@ theorem stackCall_eq (w : World) (c : Nat) (inv : Bool) (tg : Target) (cmd : Cmd
     stackCall w c inv tg cmd keys ini n =
       if isDisable w c tg.ctl [cmd] then (defaultShape cmd keys.length, [], ini)
       else match (if inv then invalidateOf cmd else none) with
-        | some (del, res) => (res, [.cmd ⟨tg, del, keys⟩], ini)
+        | some (del, res) => (res, if isDisable w c tg.ctl [del] then [] else [.cmd ⟨tg, del, keys⟩], ini)
         | none =>
           if ini.contains tg.backend then (passShape cmd n keys.length, [.cmd ⟨tg, cmd, keys⟩], ini)
           else (passShape cmd (n + 1) keys.length, [.init tg, .cmd ⟨tg, cmd, keys⟩], tg.backend :: ini) := by
@@ -94,9 +96,12 @@ theorem stackCall_mem (w : World) (c : Nat) (inv : Bool) (tg : Target) (cmd : Cm
   · simp only [hd, Bool.false_eq_true, if_false] at h
     refine ⟨by simpa using hd, ?_⟩
     split at h
-    · simp only [List.mem_singleton] at h
-      subst h
-      exact ⟨rfl, Or.inl rfl⟩
+    · rename_i del res _
+      by_cases hdel : isDisable w c tg.ctl [del] = true
+      · simp [hdel] at h
+      · simp only [hdel, Bool.false_eq_true, if_false, List.mem_singleton] at h
+        subst h
+        exact ⟨rfl, Or.inl rfl⟩
     · split at h
       · simp only [List.mem_singleton] at h
         subst h
@@ -105,6 +110,36 @@ theorem stackCall_mem (w : World) (c : Nat) (inv : Bool) (tg : Target) (cmd : Cm
         rcases h with rfl | rfl
         · exact ⟨rfl, Or.inr rfl⟩
         · exact ⟨rfl, Or.inl rfl⟩
+
+/-- a backend call is in order by itself: a command is handed over only if THAT command — the read, or the
+deletion `invalidate_further()` replaces it by — is enabled for the receiver in the caller's context -/
+def BCall.cmdOk (w : World) (c : Nat) : BCall → Prop
+  | .cmd cl => isDisable w c cl.target.ctl [cl.cmd] = false
+  | .init _ => True
+
+theorem stackCall_cmdOk (w : World) (c : Nat) (inv : Bool) (tg : Target) (cmd : Cmd)
+    (keys : List (List Nat)) (ini : List Nat) (n : Nat) (bc : BCall)
+    (h : bc ∈ (stackCall w c inv tg cmd keys ini n).2.1) : bc.cmdOk w c := by
+  rw [stackCall_eq] at h
+  by_cases hd : isDisable w c tg.ctl [cmd] = true
+  · simp [hd] at h
+  · have hd' : isDisable w c tg.ctl [cmd] = false := by simpa using hd
+    simp only [hd, Bool.false_eq_true, if_false] at h
+    split at h
+    · rename_i del res _
+      by_cases hdel : isDisable w c tg.ctl [del] = true
+      · simp [hdel] at h
+      · simp only [hdel, Bool.false_eq_true, if_false, List.mem_singleton] at h
+        subst h
+        simpa [BCall.cmdOk] using hdel
+    · split at h
+      · simp only [List.mem_singleton] at h
+        subst h
+        exact hd'
+      · simp only [List.mem_cons, List.not_mem_nil, or_false] at h
+        rcases h with rfl | rfl
+        · trivial
+        · exact hd'
 
 /-- a backend is initialised by the stack only for an enabled command -/
 theorem stackCall_ini (w : World) (c : Nat) (inv : Bool) (tg : Target) (cmd : Cmd)
@@ -310,5 +345,61 @@ theorem allBackendsS_plain (w : World) (c : Nat) (cmd : Cmd) (hc : cmd = .clear 
       refine ⟨by rw [h1], h2, ?_⟩
       rw [h3]
       rcases hc with rfl | rfl <;> simp [passShape, List.range'_succ]
+
+theorem groupCallsS_cmdOk (w : World) (c : Nat) (inTx inv : Bool) (cmd : Cmd) :
+    ∀ (groups : List (Nat × List (List Nat))) (ini : List Nat) (n : Nat) (bc : BCall),
+    bc ∈ (groupCallsS w c inTx inv cmd groups ini n).1 → bc.cmdOk w c
+  | [], _, _, _, h => by simp [groupCallsS] at h
+  | (b, ks) :: r, ini, n, bc, h => by
+    simp only [groupCallsS, List.mem_append] at h
+    rcases h with h | h
+    · exact stackCall_cmdOk w c inv (targetOf inTx b) cmd ks ini n bc h
+    · exact groupCallsS_cmdOk w c inTx inv cmd r _ _ bc h
+
+theorem allBackendsS_cmdOk (w : World) (c : Nat) (inv : Bool) (cmd : Cmd) :
+    ∀ (bs : List Nat) (ini : List Nat) (n : Nat) (bc : BCall),
+    bc ∈ (allBackendsS w c inv cmd bs ini n).1 → bc.cmdOk w c
+  | [], _, _, _, h => by simp [allBackendsS] at h
+  | b :: r, ini, n, bc, h => by
+    simp only [allBackendsS, List.mem_append] at h
+    rcases h with h | h
+    · exact stackCall_cmdOk w c inv (.raw b) cmd [] ini n bc h
+    · exact allBackendsS_cmdOk w c inv cmd r _ _ bc h
+
+/-- **every command a public command hands to a backend is itself enabled for that backend** -/
+theorem execS_cmdOk (t : Table) (w : World) (c : Nat) (inTx inv : Bool) (ini : List Nat) (f : FCmd)
+    (res : Res) (calls : List BCall) (ini' : List Nat)
+    (h : execS t w c inTx inv ini f = some (res, calls, ini')) : ∀ bc ∈ calls, bc.cmdOk w c := by
+  cases f with
+  | keyed cmd key =>
+    simp only [execS, Option.map_eq_some_iff] at h
+    obtain ⟨b, _, hm⟩ := h
+    intro bc hbc
+    have : calls = (stackCall w c inv (targetOf inTx b) cmd [key] ini 0).2.1 := by rw [hm]
+    rw [this] at hbc
+    exact stackCall_cmdOk _ _ _ _ _ _ _ _ bc hbc
+  | getMany keys =>
+    simp only [execS, Option.map_eq_some_iff] at h
+    obtain ⟨groups, _, hm⟩ := h
+    cases hm
+    exact groupCallsS_cmdOk w c inTx inv .getMany groups ini 0
+  | setMany keys =>
+    simp only [execS, Option.map_eq_some_iff] at h
+    obtain ⟨groups, _, hm⟩ := h
+    cases hm
+    exact groupCallsS_cmdOk w c inTx inv .setMany groups ini 0
+  | deleteMany keys =>
+    simp only [execS, Option.map_eq_some_iff] at h
+    obtain ⟨groups, _, hm⟩ := h
+    cases hm
+    exact groupCallsS_cmdOk w c inTx inv .deleteMany groups ini 0
+  | clear =>
+    simp only [execS, Option.some.injEq, Prod.mk.injEq] at h
+    obtain ⟨_, rfl, _⟩ := h
+    exact allBackendsS_cmdOk w c inv .clear t.backends ini 0
+  | keysCount =>
+    simp only [execS, Option.some.injEq, Prod.mk.injEq] at h
+    obtain ⟨_, rfl, _⟩ := h
+    exact allBackendsS_cmdOk w c inv .getKeysCount t.backends ini 0
 
 end CashewsVerif.Disable
